@@ -10,7 +10,7 @@ package feldman
 // is built from, each of which carries its own contract).
 
 //@ func (*LiftedShare).Equal
-//@   property C05
+//@   property C05, C12
 //@   bind E group
 //@   purefn
 //@   nopanic
@@ -30,7 +30,7 @@ package feldman
 //@     invariant forall t int :: 0 <= t && t < i ==> !utils.IsNil(v[t])
 
 //@ func LiftShare
-//@   property C05
+//@   property C05, C12
 //@   bind E group
 //@   purefn
 //@   nopanic
@@ -44,7 +44,7 @@ package feldman
 // Representation invariants of the inputs (established by NewVerificationVector / msp.NewMSP and by the decoders):
 //@ pure func wfVV(v *VerificationVector) bool = v.value != nil && wfMV(v.value) && v.value.Module().baseStructure != nil
 //@ func NewLiftedDealerFunc
-//@   property C05
+//@   property C05, C12
 //@   bind E group
 //@   purefn
 //@   requires verificationVector != nil ==> wfVV(verificationVector)
@@ -55,7 +55,7 @@ package feldman
 //@   ensures err == nil ==> result != nil && result.mspMatrix == mspMatrix && result.verificationVector == verificationVector && result.liftedLambda == res(mat.LeftAction(mspMatrix.Matrix(), verificationVector.value), 0)
 
 //@ func (*LiftedDealerFunc).ShareOf
-//@   property C05
+//@   property C05, C12
 //@   bind E group
 //@   purefn
 //@   ensures err == nil ==> result != nil && result.id == id
